@@ -428,6 +428,8 @@ MayReject(D, e) ==
         [] e.kind = "entries"                         -> \E j \in 1..Len(e.pats) : HasMay(e.pats[j])
         [] e.kind \in {"copy", "raw", "name", "item"} -> MayText(e.copy)
         [] e.kind = "lic"                             -> HasMay(e.lic.syn.id)
+        \* (creating the paragraph -- FilesParagraph.create, License(...) -- is part of the step)
+        [] e.kind = "add"                             -> HasMay(e.para.pats) \/ HasMay(e.para.lic.syn.id)
         [] OTHER                                      -> FALSE
 \* refused: for sure, or not settled and the implementation chose to refuse
 Rejects(D, e) == DefRejects(D, e) \/ (MayReject(D, e) /\ ~e.acc)
